@@ -242,7 +242,7 @@ def rule_b(ctx, ix, f):
     # the use-test checks presence and bounds
     use = [n for n in ast.walk(f.node) if isinstance(n, ast.If) and "['bounds']" in unparse(n.test)]
     ok = len(use) == 1 and 'cache_id in PIXEL_CACHE' in unparse(use[0].test) and 'ipix in PIXEL_CACHE[cache_id]' in unparse(use[0].test) \
-        and "== bounds" in unparse(use[0].test)
+        and ("== bounds" in unparse(use[0].test) or "bounds ==" in unparse(use[0].test))
     ctx.ob(R, f.construct + ' use test', 'a cached axis is used only if present and its stored bounds equal the requested bounds', ok,
            detail='the per-axis cache is used under `%s`' % (unparse(use[0].test) if use else None), where=f.where)
     # the stored entry carries all four parts
@@ -290,8 +290,10 @@ def rule_c(ctx, ix, f):
             ctx.ob(R, f.construct + ' ' + which, 'the %s branch defines the per-axis invalid mask' % which, ok,
                    detail='the %s branch does not define `invalid`' % which, where=where(f, use[0]))
         ipix_ = unparse(lp.target.elts[0]) if isinstance(lp.target, ast.Tuple) and lp.target.elts else 'ipix'
-        ok = any(isinstance(st, ast.Assign) and unparse(st.targets[0]) == 'invalid' and '< 0' in unparse(st.value) and '>=' in unparse(st.value)
-                 and ('data.shape[%s]' % ipix_) in unparse(st.value) for st in use[0].orelse)
+        from ..util import alpha as _alpha
+        want_ = _alpha("invalid = (c < 0) | (c >= data.shape[%s])" % ipix_)
+        ok = any(isinstance(st, ast.Assign) and unparse(st.targets[0]) == 'invalid' and
+                 _alpha(st) in (want_, _alpha("invalid = (c >= data.shape[%s]) | (c < 0)" % ipix_)) for st in use[0].orelse)
         ctx.ob(R, f.construct + ' bounds check', 'invalid = (coord < 0) | (coord >= size of that axis of the source)', ok,
                detail='the out-of-range test of the uncached branch is not (coord < 0) | (coord >= data.shape[ipix])', where=where(f, use[0]))
     from ..util import expand_locals, element_cases
